@@ -59,6 +59,8 @@ def cases(tier):
             cs.append(F.viaP2(c1, c2, [], end=e3))
             cs.append(F.viaP2(c1, [], c2, end=e3, order=("B", "P", "A")))
             cs.append(F.viaPdup(c1, [], c2, end=e3, order=("B", "P", "A")))
+            cs.append(F.viaPdup(c1, c2, [], end=e3, order=("B", "P", "A")))
+            cs.append(F.viaP2(c1, c2, [], end=e3, order=("P", "B", "A")))
         cs.append(F.viaPP(c1, [], [], end=e3))
         cs.append(F.viaPP([], c1 if F.chain_ok(c1, True) else [], [], end=e3, order=("B", "Q", "P", "A")))
         cs.append(F.diamondP(end=e3, ch=c1))
